@@ -74,7 +74,8 @@ def run(ctx):
     big_share = 0.01 if ctx.quick else 0.03
     ctx.rule = ("case = (entry point, mode, algorithm, key, data length class, chunk shape); generated from "
                 "VERIF_SEED over hostile keys, boundary sizes (0,1,4095..4097,1MiB-1..1MiB+1,5MiB) and 9 chunk "
-                "shapes, plus a sweep over every size 2^k, 3*2^k and neighbours (k <= 17 quick, 21 thorough); distinct = distinct (entry point, mode, algo, length class, shape, declared) tuples; "
+                "shapes, a twelfth of the writes onto an address that is already occupied by something else (same-length copy with "
+                "a flipped bit, torn / empty / longer file, dangling or stale symlink), plus a sweep over every size 2^k, 3*2^k and neighbours (k <= 17 quick, 21 thorough); distinct = distinct (entry point, mode, algo, length class, shape, declared) tuples; "
                 "a case is non-trivial when it performed a write and at least one read")
     ctx.assumptions = ["hashlib digests are the standard digests", "healthy tmpfs filesystem",
                        "xxh3 digests are checked for determinism and read-back only (no independent implementation)"]
@@ -108,6 +109,35 @@ def run(ctx):
         for c in g:
             c["req"]["cache"] = cache
             by_mode.setdefault(c["mode"], []).append(c)
+            # something is already sitting at the address this data will get - a same-length copy with a flipped bit,
+            # a torn or empty file, a longer one, a dangling or stale symlink (bit rot, a crash, a vanished link target):
+            # a write that reports success must leave the bytes it was given there
+            if c["algo"] in ref.HASHLIB_ALGOS and len(c["data"]) > 0 and rng.random() < 0.08:
+                kind = rng.choice(["same-length-flip", "truncated", "empty", "longer", "dangling-symlink", "symlink-to-other"])
+                a, hx = ref.sri_address(ref.sri(c["algo"], c["data"]))
+                cp = ref.content_path(cache, a, hx)
+                os.makedirs(os.path.dirname(cp), exist_ok=True)
+                if os.path.lexists(cp):
+                    os.unlink(cp)
+                d = c["data"]
+                if kind == "same-length-flip":
+                    b = bytearray(d)
+                    b[rng.randrange(len(b))] ^= 1 << rng.randrange(8)
+                    open(cp, "wb").write(bytes(b))
+                elif kind == "truncated":
+                    open(cp, "wb").write(d[:len(d) // 2])
+                elif kind == "empty":
+                    open(cp, "wb").close()
+                elif kind == "longer":
+                    open(cp, "wb").write(d + b"tail")
+                elif kind == "dangling-symlink":
+                    os.symlink(os.path.join(cache, "no-such-target"), cp)
+                else:
+                    other = os.path.join(os.path.dirname(cache), f"stale-target-{c['i']}")
+                    open(other, "wb").write(b"stale bytes of a former link target")
+                    os.symlink(other, cp)
+                c["shape"] += "+occupied:" + kind
+                ctx.count(f"writes_onto_occupied_address[{kind}]")
         for mode, cs in by_mode.items():
             resps = ctx.batch(mode, [c["req"] for c in cs])
             for c, r in zip(cs, resps):
